@@ -353,4 +353,56 @@ def formOut (root : Str) (lists : List Str) (rows : List Cells) (settings : Cell
           .ok { items := items, inst := instanceOf root all, binds := bindPathsL [root] all,
                 body := bodyPathsL [root] items, ctl := bodyCtlL [root] items }
 
+/-! ### the same pipeline on explicitly numbered rows
+
+`Pyxv.TableList.expand` inserts generated rows (table-list label note, table-list header select) that carry
+the sheet row number of the row they were generated from, so row numbers are no longer positions. -/
+
+def number : Nat → List Cells → List (Nat × Cells)
+  | _, [] => []
+  | n, r :: rs => (n, r) :: number (n + 1) rs
+
+def classifyNum (lists : List Str) : List (Nat × Cells) → Except String (List (Nat × RowK))
+  | [] => .ok []
+  | (n, r) :: rs =>
+    match classify lists n r with
+    | .unsupported w => .error w
+    | .row k =>
+      match classifyNum lists rs with
+      | .ok ks => .ok ((n, k) :: ks)
+      | .error w => .error w
+
+def unknownTypeNum (lists : List Str) : List (Nat × Cells) → List Nat
+  | [] => []
+  | (n, r) :: rs =>
+    let rest := unknownTypeNum lists rs
+    match classify lists n r with
+    | .row (.q _ _) =>
+      (match get r "type" with
+       | some t => if (matchSelect t).isNone && (matchControl "begin" true t).isNone && (qdata [] t r).isNone
+                   then n :: rest else rest
+       | none => rest)
+    | _ => rest
+
+/-- `formOut` on numbered rows -/
+def formOutN (root : Str) (lists : List Str) (nrows : List (Nat × Cells)) (settings : Cells) : Except FormErr FormOut :=
+  match classifyNum lists nrows with
+  | .error w => .error (.unsupported w)
+  | .ok ks =>
+    match parseRows ks with
+    | .error e => .error (.err e)
+    | .ok items =>
+      match unknownTypeNum lists nrows with
+      | n :: _ => .error (.unknownType n)
+      | [] =>
+        let all := withMeta (nrows.map (·.2)) settings items
+        match validate root all with
+        | .error e => .error (.err e)
+        | .ok () =>
+          match (helperNames ks).find? (fun h => (allNamesL all).count h > 1) with
+          | some h => .error (.err (.ambiguousRef h))
+          | none =>
+          .ok { items := items, inst := instanceOf root all, binds := bindPathsL [root] all,
+                body := bodyPathsL [root] items, ctl := bodyCtlL [root] items }
+
 end Pyxv.Rows
